@@ -80,3 +80,30 @@ class Sentinel:
 
   def __reduce__(self):
     return (Sentinel, (self.n,))
+
+
+class _AmbiguousTruth:
+  def __bool__(self):
+    raise ValueError('The truth value of an Amb comparison is ambiguous')
+
+
+class Amb(Sentinel):
+  """A Sentinel whose == / != results have no truth value (numpy-array style): code that only
+  stores, returns and passes values never notices; code that compares them with == in a boolean
+  context raises."""
+  __slots__ = ()
+
+  def __eq__(self, other):
+    return _AmbiguousTruth()
+
+  def __ne__(self, other):
+    return _AmbiguousTruth()
+
+  def __hash__(self):
+    return id(self)
+
+  def __repr__(self):
+    return f'Amb{self.n}'
+
+  def __reduce__(self):
+    return (Amb, (self.n,))
